@@ -1231,10 +1231,19 @@ class World:
         want = merge_values(clean_values(M), want)
         if d == 'observation':
             want = merge_values(clean_values(M), want)
-        want = meta_canon(want)
+        # astropy concatenates list-valued entries at every merge (model instances, then operands; an Observation
+        # twice), so how often an element is repeated says nothing about the operands: lists are compared as the set
+        # of their elements
+        def as_set(v):
+            if isinstance(v, dict):
+                return {a: as_set(b) for a, b in v.items()}
+            if isinstance(v, list):
+                return sorted({jcanon(as_set(x)) for x in v})
+            return v
+        want = meta_canon(as_set(want))
         if lib:
             want['warnings'][lib] = '<lib>'
-        got = meta_canon(self.objs[rid].meta)
+        got = meta_canon(as_set(copy.deepcopy(self.objs[rid].meta)))
         if got != want:
             what = 'header_or_expr_kept' if any(x in got['entries'] for x in ('header', 'expr')) else 'not_the_merge'
             self.fail('%s:result_metadata:%s' % (d, what),
